@@ -105,6 +105,16 @@ class _Eng(stepped.Engine):
         return data, addr
 
 
+def enumerated(tier):
+    """a handler registered by another thread at every lock release of a short run in which a request is answered and removed (the
+    window between the two locked sections of the engine's clean-up pass is one of them); a datagram for it arrives afterwards"""
+    fam = []
+    for k in range(1, 121):
+        fam.append({"part": "engine", "handlers": [{"verbs": [0], "mode": "ok"}], "datagrams": [[1.2, 2], [1.25, 0]], "bursts": [], "floods": [],
+                    "requests": [{"t": 0.1, "T": 1.0, "N": 1, "answer": 0.2}], "late": {"k": k, "verbs": [2]}})
+    return len(fam), lambda i: fam[i]
+
+
 def _part_engine(res, case):
     from geckolib.driver import GeckoUdpProtocolHandler, GeckoUdpSocket
 
@@ -166,6 +176,43 @@ def _part_engine(res, case):
             hs[h.hid] = h
             sock.add_receive_handler(h)
             ev.append(("reg", h.hid, vt.t))
+        # another thread (a client thread, the ping thread) registers one more handler at the instant the engine releases its lock for
+        # the k-th time - the only places where a real second thread can get in between two steps of the engine
+        late = case.get("late")
+        if late:
+            real_lock = sock._lock
+            late_state = {"n": 0, "done": False, "busy": False}
+
+            class HookLock:
+                def __enter__(self_):
+                    return real_lock.__enter__()
+
+                def __exit__(self_, *a):
+                    r_ = real_lock.__exit__(*a)
+                    if not late_state["busy"] and not late_state["done"]:
+                        late_state["n"] += 1
+                        if late_state["n"] == int(late["k"]):
+                            late_state["busy"] = True
+                            try:
+                                hl = H("late", [VERBS[int(v) % 5] for v in late.get("verbs", [2])])
+                                hs[hl.hid] = hl
+                                sock.add_receive_handler(hl)
+                                ev.append(("reg", hl.hid, vt.t))
+                                info["late_registered_at"] = vt.t - t0
+                            finally:
+                                late_state["busy"] = False
+                                late_state["done"] = True
+                    return r_
+
+                def acquire(self_, *a, **k):
+                    return real_lock.acquire(*a, **k)
+
+                def release(self_):
+                    return real_lock.release()
+
+                def locked(self_):
+                    return real_lock.locked()
+            sock._lock = HookLock()
         # requests
         reqs = []
         for j, r in enumerate(case.get("requests", [])[:3]):
@@ -580,6 +627,8 @@ def run_case(case) -> Result:
             res.label("engine-handler-object-queued-repeatedly")
         if info.get("slow"):
             res.label("engine-held-up-before-sendto")
+        if info.get("late_registered_at") is not None:
+            res.label("engine-handler-registered-by-another-thread")
     elif part == "handshake":
         plan = _part_handshake(res, case)
         lossy = sum(1 for v in plan.values() if v)
